@@ -1,5 +1,28 @@
 /* Driver TU for the in-place scanners of /repo/hwloc/topology-xml-nolibxml.c (a leaf of C06): bounded harnesses. */
 #include "verif_prelude.h"
 #include "strspn.h"
+#include <stdarg.h>
+#include <stdio.h>
+/* sscanf model for the one format hwloc_nolibxml_look_init uses, "<topology version=\"%u.%u\">" (ISO C 7.21.6.2): literal
+ * characters must match, each %u converts a non-empty run of decimal digits, the return value counts the conversions made
+ * before the first mismatch -- text after the last conversion is NOT required to match */
+int sscanf(const char *str, const char *fmt, ...)
+{
+  static const char lit[] = "<topology version=\"";
+  va_list ap; unsigned *a, *b; size_t k = 0, d; unsigned v;
+  __CPROVER_assert(fmt[0] == '<' && fmt[1] == 't' && fmt[19] == '%' && fmt[20] == 'u' && fmt[21] == '.' && fmt[22] == '%' && fmt[23] == 'u', "sscanf model: only the format of look_init is modelled");
+  va_start(ap, fmt); a = va_arg(ap, unsigned *); b = va_arg(ap, unsigned *); va_end(ap);
+  if (!str[0]) return -1;
+  for (k = 0; k < sizeof(lit) - 1; k++) if (str[k] != lit[k]) return 0;
+  for (d = 0, v = 0; str[k] >= '0' && str[k] <= '9'; k++, d++) v = v * 10 + (unsigned)(str[k] - '0');
+  if (!d) return 0;
+  *a = v;
+  if (str[k] != '.') return 1;
+  k++;
+  for (d = 0, v = 0; str[k] >= '0' && str[k] <= '9'; k++, d++) v = v * 10 + (unsigned)(str[k] - '0');
+  if (!d) return 1;
+  *b = v;
+  return 2;
+}
 #include HWLOC_VERIF_SRC_NOLIBXML
 #include "nolibxml.harness.c"
